@@ -202,6 +202,8 @@ func (db *RedisPermanent) State(key string) (st base.State, found bool, _ error)
 		return i, j, nil
 	}
 
+	verifPermGate("state-cache-miss", key)
+
 	switch b, found, err := db.st.Get(context.Background(), redisStateKey(key)); {
 	case err != nil, !found:
 		return nil, found, err
@@ -210,6 +212,7 @@ func (db *RedisPermanent) State(key string) (st base.State, found bool, _ error)
 			return nil, true, err
 		}
 
+		verifPermGate("state-loaded", key)
 		db.setStateToCache(st)
 
 		return st, true, nil
